@@ -150,7 +150,11 @@ func Arbitrary() {
 	a := vx.Int("a")
 	b := vx.Int("b")
 	vx.Assume(vx.And(a >= 0, b >= 0))
-	switch vx.Choose(7) {
+	which := vx.Param("case", -1)
+	if which < 0 {
+		which = vx.Choose(7)
+	}
+	switch which {
 	case 0:
 		defer noPanic("Sub")
 		strz.Sub(s, a, b)
